@@ -129,7 +129,15 @@ func TestVerifC22(t *testing.T) {
 		}
 		if qs := os.Getenv("VERIF_DEBUG_QUERY"); qs != "" {
 			for _, text := range strings.Split(qs, ";;") {
-				res, stage, p, _ := vfExec(d, text, vfCfg{name: "base", mode: ReadMode, setup: "setup", dir: Next}, th)
+				dcfg := vfCfg{name: "base", mode: ReadMode, setup: "setup", dir: Next}
+				if v, _ := strconv.ParseUint(os.Getenv("VERIF_DEBUG_RB"), 10, 64); v != 0 {
+					dcfg.rbSeed = v
+				}
+				if os.Getenv("VERIF_DEBUG_NOREV") != "" {
+					dcfg.joinRev = impossible
+				}
+				dcfg.ticost, _ = strconv.Atoi(os.Getenv("VERIF_DEBUG_TICOST"))
+				res, stage, p, _ := vfExec(d, text, dcfg, th)
 				fmt.Println("Q:", text, "\n  stage", stage, "panic", p)
 				if res != nil {
 					fmt.Println("  =>", res.strategy)
